@@ -620,6 +620,8 @@ def oracles(lines):
                 sk = rec["sinks"].get(s)
                 if sk and accepts(sk, st, i) and written.get((s, i), 0) == 0:
                     viol.append(("C08" if dropping else "C03", "accepted statement id=%d (actor %d) never reached sink %d" % (i, st["actor"], s)))
+                    if st["actor"] in exited:
+                        viol.append(("C20", "statement id=%d of exited thread %d was accepted but never delivered to sink %d (its context was reclaimed or skipped with the statement pending)" % (i, st["actor"], s)))
     if dropping and not backtrace_used and xs_seen and cfg.get("variant", 0) == 1 and not unknown_outcomes[0]:
         if dropped_reported != dropped_log_calls:
             viol.append(("C08", "dropped log calls: %d, reported through the notifier: %d" % (dropped_log_calls, dropped_reported)))
